@@ -27,7 +27,7 @@ pub fn info() -> PropInfo {
         id: "C08",
         run,
         replay,
-        rule: "cases = (input, source). Neutral configuration (no trimming, no expansion, no name checks/trimming, unmatched ends allowed). For every read call the bytes between the position before and after must be exactly opening delimiter + content exposed by the event + closing delimiter; spans must tile; the final position must be the input length; the Writer's bytes for each event must equal that span (DOCTYPE keyword normalised). Enumerated strings/token sequences, corpus, proptest soups, mutated corpus. Non-trivial = at least two events of which at least one is markup.",
+        rule: "cases = (input, source). Neutral configuration (no trimming, no expansion, no name checks/trimming, unmatched ends allowed). For every read call the bytes between the position before and after must be exactly opening delimiter + content exposed by the event + closing delimiter; spans must tile; the final position must be the input length; the Writer's bytes for each event must equal that span (DOCTYPE keyword normalised). Enumerated strings/token sequences, corpus, proptest soups, mutated corpus. Non-trivial = at least two events of which at least one is markup. Two further enumerations vary SIZE and OFFSET: fourteen construct kinds (text, long name, quoted value with '>', many attributes, blanks inside tags, comment / CDATA / PI bodies with near-terminators, DOCTYPE with nested brackets, blank runs around text, reference runs, declaration, deep nesting) with an inner length 0..=70 placed after a prefix of 0..=130 bytes, and large inputs whose variable part is 255..70 001 bytes long (block-wise scanners, buffer growth, positions beyond 255 / 65 535, default BufReader capacity). Every event is also written through a synchronous sink that accepts 1..=7 bytes per (plain or vectored) write and interrupts some calls: same bytes as into a Vec.",
         assumptions: &[
             "a leading UTF-8 BOM may be counted or not, as long as one convention is used consistently within the run",
             "after a fatal syntax error only the prefix is compared",
